@@ -31,6 +31,12 @@ CLAIMS = {
     "C06": ("property-based testing (rapid): validity predicate over every completion candidate at every cursor; constructed populations around the limit with an exact count; metamorphic left-out probe",
             "Generated-input search with a validity predicate per candidate (edit range vs cursor, tab-stop syntax and numbering) and per list (limit of 100). The complete-flag clause is decided exactly on constructed populations of known size (attributes, block types, labels, functions, object attributes, reference targets, hook candidates; 0..250 entries, with and without typed prefix and extensions) and metamorphically on generated worlds (a complete list at the limit must contain everything offered after one more typed character).",
             "4/C06", TRUST + " Hook-provided insert text is caller content and not snippet-checked."),
+    "C18": ("property-based testing (rapid), metamorphic: translate the file by inserted blank/comment lines and compare every query result up to shifting",
+            "Metamorphic generated-input search: result(original, p) with the edited file's ranges shifted equals result(translated, shift(p)) for every query kind and cursor; the parser-level precondition (top-level AST is translated) is checked, not assumed.",
+            "4/C18", TRUST + " Insertion at offset 0 is excluded (the root body's own start does not move); insertion points inside multi-line tokens are excluded."),
+    "C20": ("property-based testing (rapid) against a reference model built from generator annotations (call parentheses and own commas)",
+            "Generated function tables and call trees with recorded structure; soundness (whatever is returned is the innermost enclosing known call with fixed++variadic parameters and the comma-count active index, none beyond the parameters) on all inputs incl. half-typed prefixes, completeness on parse-clean text.",
+            "4/C20", TRUST + " Don't-care positions: cursor exactly at the opening parenthesis; calls with an empty argument slot."),
 }
 
 def main():
